@@ -73,6 +73,63 @@ def histories(ctx):
     return hs, n_tlc
 
 
+STREAMS = {'c05': 60, 'c11': 80, 'c12': 40, 'c13': 60}          # driver module -> number of sampled recipes (quick)
+
+
+def _stream_worker(job):
+    """Runs in a fresh interpreter: executes the recipes of another property's driver in the given order and returns
+    one digest per recipe (of the complete recorded event list)."""
+    import hashlib
+    import importlib
+    import logging
+    import warnings
+    warnings.simplefilter('ignore')
+    logging.getLogger('skfem').setLevel(logging.ERROR)
+    modname, recipes, order = job
+    mod = importlib.import_module(f'harness.props.{modname}')
+    out = {}
+    for j in order:
+        try:
+            evs = mod.execute(recipes[j])
+        except Exception as exc:          # harness-level problem: reported as such by the caller
+            evs = [{'harness_error': type(exc).__name__}]
+        out[j] = hashlib.sha1(json.dumps(evs, sort_keys=True, default=str).encode()).hexdigest()[:20]
+    return modname, out
+
+
+def driver_streams(ctx):
+    """Pool mode of the other drivers: the scenario streams of other properties' drivers (which exercise most of the
+    library) are executed twice in fresh interpreters, in generation order and in a shuffled order; any module- or
+    class-level state that leaks from one scenario into another makes the two digests of a scenario differ."""
+    import importlib
+    rng = np.random.default_rng(ctx.seed + 151)
+    jobs = []
+    streams = {}
+    for modname, n in STREAMS.items():
+        mod = importlib.import_module(f'harness.props.{modname}')
+        recs = mod.generate('quick', ctx.seed)
+        k = n * (4 if ctx.tier == 'thorough' else 1)
+        if len(recs) > k:
+            recs = [recs[int(j)] for j in sorted(rng.choice(len(recs), size=k, replace=False))]
+        streams[modname] = recs
+        order1 = list(range(len(recs)))
+        order2 = [int(j) for j in rng.permutation(len(recs))]
+        jobs.append((modname, recs, order1))
+        jobs.append((modname, recs, order2))
+    with mp.get_context('spawn').Pool(processes=min(8, len(jobs)), maxtasksperchild=1) as pool:
+        res = pool.map(_stream_worker, jobs, chunksize=1)
+    scs = []
+    for a in range(0, len(res), 2):
+        modname, d1 = res[a]
+        _, d2 = res[a + 1]
+        for j, rec in enumerate(streams[modname]):
+            ev = {'a': f'{modname}.execute', 'group': 'drivers', 'k': j + 1, 'h_pool': d2[j], 'e_pool': '',
+                  'h_fresh': d1[j], 'e_fresh': '', 'before': [], 'after': [], 'tags': {'op': f'{modname}.execute'}}
+            scs.append({'id': f'C15-stream-{modname}-{j}', 'recipe': {'driver': 'stream', 'module': modname, 'recipe': rec},
+                        'tags': {'family': 'driver-streams', 'groups': modname}, 'events': [ev]})
+    return scs
+
+
 def run(ctx):
     ctx.model_must_hold('Cache', 'MC_C15.cfg', timeout=900)
     old = ctx.tlc_model('Cache', 'MC_C15_old.cfg', timeout=900, label='regression model: hit conditions before the repairs')
@@ -93,8 +150,11 @@ def run(ctx):
             ev['h_fresh'], ev['e_fresh'] = hf, ef
         scs.append({'id': sid, 'recipe': {'driver': 'session', 'history': [[g, k] for g, k in h]},
                     'tags': {'family': fam, 'groups': '+'.join(sorted({g for g, _ in h}))}, 'events': evs})
+    stream_scs = driver_streams(ctx)
+    ctx.notes['driver_stream_scenarios'] = len(stream_scs)
+    scs += stream_scs
     ctx.validate('TraceC15', scs)
-    ctx.notes['distinct_nontrivial'] = len({json.dumps(s['recipe']) for s in scs if len(s['events']) >= 2})
+    ctx.notes['distinct_nontrivial'] = len({json.dumps(s['recipe'], default=str) for s in scs if len(s['events']) >= 2})
     ctx.notes['histories_from_tlc'] = n_tlc
     ctx.notes['operation_instances'] = {g: [S.op_label(g, k) for k in range(n)] for g, n in S.group_sizes().items()}
     return ctx.finish(rule=RULE, assumptions=[
@@ -106,6 +166,11 @@ def run(ctx):
 
 def replay(ctx, doc):
     sc = doc['scenario']
+    if sc['recipe'].get('driver') == 'stream':
+        # a single scenario cannot show cross-scenario leakage: re-run the whole stream comparison
+        scs = [s for s in driver_streams(ctx) if s['recipe']['module'] == sc['recipe']['module']]
+        ctx.validate('TraceC15', scs)
+        return ctx.finish(rule=RULE)
     ref = references(ctx)
     h = [(g, k) for g, k in sc['recipe']['history']]
     sid, evs = _pooled((sc['id'], h))
